@@ -239,6 +239,18 @@ Proof.
   - intros e He w [].
   - intros e w He [].
 Qed.
+Theorem store_io_noreply_value sid p p' name values cmds : peer p cmds = (p', []) ->
+  hoare (St sid p []) (store_io P peer c name values true cmds)
+        (fun r w => r = fold_left (fun d kv => dict_set d (fst kv) (DBool true)) values [] /\ St sid p' [] w) (fun _ _ => False).
+Proof.
+  intros Hp. unfold store_io, exchange.
+  eapply h_bind with (Q1 := fun _ => St sid p []); [apply (h_ensure_St sid p [])|]. intros u. cbn beta.
+  eapply h_bind with (Q1 := fun _ => St sid p []); [apply (h_reset_St sid p)|]. intros u1. cbn beta.
+  eapply h_try with (E1 := fun _ _ => False).
+  - eapply h_bind with (Q1 := fun _ => St sid p' []); [apply (h_send_quiet sid p cmds p' [] Hp)|]. intros u2. cbn beta iota. apply h_ret'. auto.
+  - intros e He w [].
+  - intros e w He [].
+Qed.
 Theorem misc_cmd_noreply_quiet sid p p' cmds : peer p (concat cmds) = (p', []) ->
   hoare (St sid p []) (misc_cmd P peer c cmds true []) (fun _ => St sid p' []) (fun _ _ => False).
 Proof.
